@@ -130,6 +130,11 @@ impl Group for Secp256K1Group {
     }
 
     fn deserialize(buf: &Self::Serialization) -> Result<Self::Element, GroupError> {
+        // Only the compressed form is canonical; in particular reject the
+        // SEC1 "compact" tag (0x05) which would be a second encoding of a point.
+        if buf[0] != 0x02 && buf[0] != 0x03 {
+            return Err(GroupError::MalformedElement);
+        }
         let encoded_point =
             k256::Sec1Point::from_bytes(buf).map_err(|_| GroupError::MalformedElement)?;
 
